@@ -486,6 +486,9 @@ type authCase struct {
 	Password    string `json:"password"`
 	Domain      string `json:"domain"`
 	Workstation string `json:"workstation"`
+	// TargetName: the server's own name in the CHALLENGE (bytes in the negotiated character set). The response
+	// is keyed with the domain the CALLER supplied – also when that is empty – never with the server's name.
+	TargetName vf.Hex `json:"challenge_target_name,omitempty"`
 }
 type av struct {
 	ID    uint16 `json:"id"`
@@ -515,7 +518,7 @@ func authMessage(c authCase) (msg []byte, pairs []nlmp.AvPair, fs []vf.Finding) 
 	for _, p := range c.TargetInfo {
 		pairs = append(pairs, nlmp.AvPair{ID: p.ID, Value: p.Value})
 	}
-	ch := &nlmp.Challenge{Flags: c.Flags}
+	ch := &nlmp.Challenge{Flags: c.Flags, TargetName: c.TargetName}
 	if !c.NoInfo {
 		ch.TargetInfo = nlmp.EncodeAvPairs(pairs)
 	}
@@ -673,6 +676,23 @@ func genAuth(t *rapid.T, v2 bool) authCase {
 		return string(b)
 	}
 	c.User, c.Domain, c.Workstation = name("user"), name("domain"), name("ws")
+	switch rapid.IntRange(0, 3).Draw(t, "targetName") {
+	case 0, 1:
+		// a server name in the CHALLENGE; with it the case "caller supplies no domain" is drawn on purpose
+		tn := name("target")
+		if tn == "" {
+			tn = "SRV"
+		}
+		if unicode {
+			c.TargetName = refcrypto.UTF16LE(tn)
+		} else {
+			c.TargetName = []byte(tn)
+		}
+		c.Flags |= nlmp.FlagReqTarget
+		if rapid.Bool().Draw(t, "noDomain") {
+			c.Domain = ""
+		}
+	}
 	if v2 {
 		c.Password = alpha.String(t, "pw", 16, "")
 	} else {
@@ -694,6 +714,9 @@ func authClasses(s *vf.Sub, c authCase) authCase {
 		s.Class("challenge:no-target-info")
 	case c.Flags&nlmp.FlagTargetInf == 0:
 		s.Class("challenge:target-info-without-flag")
+	}
+	if len(c.TargetName) > 0 && c.Domain == "" {
+		s.Class("challenge:target-name-present, caller-domain-empty")
 	}
 	if c.Flags&nlmp.FlagExtSec == 0 {
 		switch {
